@@ -1701,6 +1701,120 @@ fn main() {
         },
     );
 
+    // Reading a value back WITHOUT serde: the typed getters user-written filters and embedders use -
+    // `T::try_from(Value)`, `Kwargs::get::<T>` / `must_get::<T>`, `State::get::<T>` - for every
+    // integer type T, on boundary numbers of every width held in every encoding that can hold them:
+    // the number itself when T can represent it, an error otherwise (never another number).
+    // (Seeded change C19-12 routed them through `as_number()`, which gives up on u128 above i128::MAX.)
+    run.family(
+        Family::new(
+            "typed-getters",
+            1,
+            "12 integer types x 40 boundary numbers (the ends of every width, one beyond them, 0, +-1, u128 above i128::MAX) x every encoding that holds the number (i64, u64, i128, u128) x 4 getters (TryFrom<Value>, Kwargs::get, Kwargs::must_get, State::get): Ok(the number) exactly when the type represents it, Err otherwise; bool and f64 targets on the same values",
+        ),
+        |_item, acc: &mut Acc| {
+            // (number as i128 when it fits, as u128 when non-negative)
+            let mut nums: Vec<(Option<i128>, Option<u128>)> = vec![];
+            let mut push = |i: Option<i128>, u: Option<u128>| {
+                let e = (i.or(u.and_then(|u| i128::try_from(u).ok())), u.or(i.and_then(|i| u128::try_from(i).ok())));
+                if !nums.contains(&e) {
+                    nums.push(e);
+                }
+            };
+            for b in [8u32, 16, 32, 64] {
+                let smax = (1i128 << (b - 1)) - 1;
+                let umax = (1i128 << b) - 1;
+                for x in [smax, smax + 1, -smax - 1, -smax - 2, umax, umax + 1] {
+                    push(Some(x), None);
+                }
+            }
+            for x in [0i128, 1, -1, 2, i128::MAX, i128::MAX - 1, i128::MIN, i128::MIN + 1] {
+                push(Some(x), None);
+            }
+            for x in [i128::MAX as u128 + 1, (1u128 << 127) + 1, u128::MAX - 1, u128::MAX] {
+                push(None, Some(x));
+            }
+            let encodings = |n: &(Option<i128>, Option<u128>)| -> Vec<(&'static str, Value)> {
+                let mut v = vec![];
+                if let Some(i) = n.0 {
+                    if let Ok(x) = i64::try_from(i) {
+                        v.push(("i64", Value::from(x)));
+                    }
+                    v.push(("i128", Value::from(i)));
+                }
+                if let Some(u) = n.1 {
+                    if let Ok(x) = u64::try_from(u) {
+                        v.push(("u64", Value::from(x)));
+                    }
+                    v.push(("u128", Value::from(u)));
+                }
+                v
+            };
+            macro_rules! target {
+                ($($t:ty),*) => {$(
+                    for n in &nums {
+                        let want: Option<$t> = match n {
+                            (Some(i), _) => <$t>::try_from(*i).ok(),
+                            (None, Some(u)) => <$t>::try_from(*u).ok(),
+                            _ => unreachable!(),
+                        };
+                        for (enc, v) in encodings(n) {
+                            let mut m = tera::value::Map::new();
+                            m.insert("k".into(), v.clone());
+                            let kw = tera::Kwargs::new(std::sync::Arc::new(m));
+                            let mut ctx = Context::new();
+                            ctx.insert_value("k", v.clone());
+                            let st = tera::State::new(&ctx);
+                            let got: [(&str, Result<Result<Option<$t>, String>, String>); 4] = [
+                                ("TryFrom<Value>", engine::guarded(|| <$t>::try_from(v.clone()).map(Some).map_err(|e| e.to_string()))),
+                                ("Kwargs::get", engine::guarded(|| kw.get::<$t>("k").map_err(|e| e.to_string()))),
+                                ("Kwargs::must_get", engine::guarded(|| kw.must_get::<$t>("k").map(Some).map_err(|e| e.to_string()))),
+                                ("State::get", engine::guarded(|| st.get::<$t>("k").map_err(|e| e.to_string()))),
+                            ];
+                            for (getter, g) in got {
+                                let ok = match (&g, &want) {
+                                    (Ok(Ok(Some(x))), Some(w)) => x == w,
+                                    (Ok(Err(_)), None) => true,
+                                    _ => false,
+                                };
+                                if !ok {
+                                    let sig = match &g {
+                                        Err(_) => "panic",
+                                        Ok(Ok(_)) if want.is_none() => "accepted-out-of-range",
+                                        Ok(Ok(_)) => "wrong-number",
+                                        Ok(Err(_)) => "refused-representable",
+                                    };
+                                    acc.violation(
+                                        format!("typed-getter:{sig}:{}:from-{enc}", stringify!($t)),
+                                        format!("{getter}::<{}> on {v:?} (held as {enc}) gave {g:?}, expected {want:?}", stringify!($t)),
+                                        || json!({"getter": getter, "target": stringify!($t), "value": format!("{v:?}"), "encoding": enc, "expected": format!("{want:?}")}),
+                                    );
+                                }
+                                acc.case(true, if want.is_some() { "typed-getter:number" } else { "typed-getter:refused" });
+                            }
+                        }
+                    }
+                )*};
+            }
+            target!(u8, i8, u16, i16, u32, i32, u64, i64, usize, isize, u128, i128);
+            // an integer is not a bool; every integer is a number an f64 getter takes
+            for n in &nums {
+                for (enc, v) in encodings(n) {
+                    match engine::guarded(|| bool::try_from(v.clone()).is_ok()) {
+                        Ok(false) => {}
+                        other => acc.violation(format!("typed-getter:bool-from-{enc}"), format!("bool::try_from({v:?}) gave {other:?}"), || json!({"value": format!("{v:?}")})),
+                    }
+                    let want = n.0.map(|i| i as f64).or(n.1.map(|u| u as f64)).unwrap();
+                    match engine::guarded(|| f64::try_from(v.clone()).map_err(|e| e.to_string())) {
+                        Ok(Ok(f)) if f == want => {}
+                        other => acc.violation(format!("typed-getter:f64-from-{enc}"), format!("f64::try_from({v:?}) gave {other:?}, expected {want:?}"), || json!({"value": format!("{v:?}")})),
+                    }
+                    acc.case(true, "typed-getter:other-targets");
+                }
+            }
+        },
+    );
+
     // The embedder's other doors: `Value::from(x)` for every `From` impl, the `context!` macro,
     // `Context::extend` / `remove`. Each must land on the same value as the serde conversion of
     // the same Rust datum (equal, printed alike, read back into the same type unchanged).
